@@ -17,7 +17,7 @@ func runC02(r *rt.Run) {
 	r.Describe = describePair
 	p := buildPools(r.Thorough())
 	r.Bounds["pools"] = p.desc
-	r.Rule = "every ordered pair over pools of valid shapes built exhaustively from lattice alphabets (all half-step points, all rectangles incl. zero-extent, all lines of 2-3 positions incl. zero-length segments, all simple rings, curated exteriors x all valid holes); both operand orders; two index configurations; non-trivial = bounding boxes meet"
+	r.Rule = "every ordered pair over pools of valid shapes built exhaustively from lattice alphabets (all half-step points, all rectangles incl. zero-extent, all lines of 2-3 positions incl. zero-length segments, all simple rings, curated exteriors x all valid holes); both operand orders; two index configurations and a third realisation in which both operands are derived objects (built elsewhere under an r-tree index, brought to their place through Move) and a fourth scaled by 2^-30; non-trivial = bounding boxes meet"
 	r.Assume = []string{"valid operands (simple rings, holes inside) on small dyadic coordinates", "reference: exact set intersection via 1-D decomposition of boundary segments (verif/mc/exact); symmetric by construction"}
 	allPairs(r, p, func(a, b *shp, w *rt.Worker) {
 		cur := &curPair{"intersects", a.E, b.E}
@@ -53,6 +53,24 @@ func runC02(r *rt.Run) {
 		if ba2 != ba {
 			w.Fail("index-dependence", func() (rt.Case, string, string) {
 				return pairCase("intersects", b.E, a.E, ident, "alt"), fmt.Sprint(want), fmt.Sprint(ba2)
+			})
+		}
+		if ab4 := libIntersects(a.G4, b.G4); ab4 != ab {
+			w.Fail("scale-dependence", func() (rt.Case, string, string) {
+				return pairCase("intersects", a.E, b.E, ident, "tiny"), fmt.Sprint(want), fmt.Sprint(ab4)
+			})
+		}
+		w.Evals++
+		ab3, ba3 := libIntersects(a.G3, b.G3), libIntersects(b.G3, a.G3)
+		w.Evals += 2
+		if ab3 != ab {
+			w.Fail("move-dependence", func() (rt.Case, string, string) {
+				return pairCase("intersects", a.E, b.E, ident, "moved"), fmt.Sprint(want), fmt.Sprint(ab3)
+			})
+		}
+		if ba3 != ba {
+			w.Fail("move-dependence", func() (rt.Case, string, string) {
+				return pairCase("intersects", b.E, a.E, ident, "moved"), fmt.Sprint(want), fmt.Sprint(ba3)
 			})
 		}
 	})
